@@ -326,6 +326,7 @@ def judge_history(h, want, ignore_envelope=False):
     booted = False
     boots = 0
     p12_latent = False
+    p11_latent = False
     holders_shown = {}    # name -> set of cidr toks shown to / written by this incarnation
     known = {}            # name -> pod CIDRs of nodes that exist or whose deletion has not been delivered yet
     listed_at_boot = None
@@ -383,7 +384,8 @@ def judge_history(h, want, ignore_envelope=False):
                 for r in sp.ranges():
                     for r2 in osp.ranges():
                         if overlap(r, r2):
-                            clauses.add("P11-overlapping-clustercidrs")
+                            # P11 needs a holder recorded in two of the overlapping ClusterCIDRs (re-sync, restart): activated below
+                            p11_latent = True
                             if osp.hb != sp.hb:
                                 # P12 needs a restart over holders: start-up records a holder in the ClusterCIDR ranking first
                                 # for it, possibly as a coarser block than the one it was given (activated at `boot`)
@@ -461,6 +463,8 @@ def judge_history(h, want, ignore_envelope=False):
                 cnt[a_] = cnt.get(a_, 0) + 1
         if any(v > 1 for v in cnt.values()):
             clauses.add("P22-double-association")
+            if p11_latent:
+                clauses.add("P11-overlapping-clustercidrs")
 
         # ---------------- crash / hang / unexpected API calls (C12)
         if ob["res"] == "panic":
